@@ -156,8 +156,10 @@ AllocTyped(st, T, owned) ==
             Commit(r.st, meta, owned, EmbedsTyped(owned), FALSE)
        ELSE Fail(st)
 
+\* (as found a zero-sized T always took the alloc_bytes route, so the n bytes were not aligned for it; repaired: only a
+\* request that is empty altogether, or needs no alignment, does)
 AllocAligned(st, T, n, owned) ==
-  IF T.size = 0 THEN AllocBytes(st, n, owned)
+  IF T.size = 0 /\ (n = 0 \/ T.align = 1) THEN AllocBytes(st, n, owned)
   ELSE
   LET al == Align(st.cursor, T.align) want == al + T.size + n IN
   IF want <= st.cap
